@@ -114,6 +114,13 @@ def _named_items():
     add("rest:AM(B(PPp)|p)", "AM", [["Bnn", "p0"]], ["p", "p0"], expect="rest")
     add("inv:MM(B(PPp),B(-p))", "MM", [["Bnn", "p0"], ["Bneg", "p0"]], expect="identity")
     add("inv:MM(B(PPPp),B(p))", "MM", [["Bnnn", "p0"], ["B", "p0"]], expect="identity")
+    # momenta that are SUMS (how the library forms the momentum of a decaying state)
+    add("S:BoostMatrix(p+q)", "single", [["B", "p0+p1"]])
+    add("S:BoostMatrix(-(p+q))", "single", [["Bneg", "p0+p1"]])
+    add("S:NegativeMomentum(p+q)", "single", [], ["neg", "p0+p1"])
+    add("inv:MM(B(-(p+q)),B(p+q))", "MM", [["Bneg", "p0+p1"], ["B", "p0+p1"]], expect="identity")
+    add("rest:AM(B(p+q)|p+q)", "AM", [["B", "p0+p1"]], ["p", "p0+p1"], expect="rest")
+    add("rest:AM(B(-(p+q))|-(p+q))", "AM", [["Bneg", "p0+p1"]], ["neg", "p0+p1"], expect="rest")
     # z-boost = general boost for p along +z and -z, beta = p_z / E
     add("z:BoostZMatrix(beta)=BoostMatrix(p)", "single", [["BzS", "b0"]], zonly=True,
         bind={"b0": "p0"},
@@ -348,12 +355,14 @@ def item_symbols(item):
     def visit(it):
         for cls, arg in it["factors"]:
             if cls in {"B", "Bneg", "Bnn", "Bnnn", "BzP", "eta"}:
-                seen.setdefault(arg, "mom")
+                for name in arg.split("+"):
+                    seen.setdefault(name, "mom")
             else:
                 for _, name in _parse_sum(arg):
                     seen.setdefault(name, "beta" if cls == "BzS" else "ang")
         if it.get("vec"):
-            seen.setdefault(it["vec"][1], "mom")
+            for name in it["vec"][1].split("+"):
+                seen.setdefault(name, "mom")
 
     visit(item)
     if item.get("same_as"):
@@ -444,6 +453,19 @@ def regions(item, tier, seed):
         for pos, (name, kind) in enumerate(free):
             if name not in primary_names:
                 data[name] = secondary(name, kind, pos, r_idx, n_pts)
+        # a sum of momenta that is exactly at rest is the excluded point p = 0 of the general
+        # boost: give the second momentum twice its beta*gamma there
+        sums = {f[1] for f in item["factors"] if "+" in f[1]}
+        if item.get("vec") and "+" in item["vec"][1]:
+            sums.add(item["vec"][1])
+        for arg in sorted(sums):
+            names = arg.split("+")
+            tot = sum(data[nm]["p"][:, 1:] for nm in names)
+            at_rest = ~np.any(tot != 0.0, axis=1)
+            if np.any(at_rest):
+                d = data[names[-1]]
+                bg2 = np.where(at_rest, 2.0 * d["bg"], d["bg"])
+                data[names[-1]] = mom_data(d["m"], bg2, d["n"])
         for name, src in bind.items():  # beta := p_z / E of a momentum (signed)
             p = data[src]["p"]
             data[name] = {"kind": "beta", "v": p[:, 3] / p[:, 0],
@@ -484,14 +506,39 @@ def _arg_expr(arg, table):
     return tot
 
 
+def _mom_expr(arg, table):
+    """A momentum symbol, or the ArraySum of several ("p0+p1")."""
+    from ampform.sympy._array_expressions import ArraySum  # noqa: PLC0415
+
+    names = arg.split("+")
+    return table[names[0]] if len(names) == 1 else ArraySum(*[table[n] for n in names])
+
+
+def _mom_data(arg, data):
+    """Reference (m, bg, n) of a momentum symbol or of a sum of momenta."""
+    import numpy as np  # noqa: PLC0415
+
+    from vp.ref import kin  # noqa: PLC0415
+
+    names = arg.split("+")
+    if len(names) == 1:
+        d = data[arg]
+        return d["m"], d["bg"], d["n"]
+    tot = sum(kin.momentum(data[n]["m"], data[n]["bg"], data[n]["n"]) for n in names)
+    p3 = np.sqrt((tot[:, 1:] ** 2).sum(axis=1))
+    mass = np.sqrt(np.maximum((tot[:, 0] - p3) * (tot[:, 0] + p3), 0.0))
+    n = tot[:, 1:] / np.maximum(p3, 1e-300)[:, None]
+    return mass, p3 / mass, n
+
+
 def build_factor(factor, table, n_events):
     from ampform.kinematics import lorentz as lz  # noqa: PLC0415
 
     cls, arg = factor
     if cls == "B":
-        return lz.BoostMatrix(table[arg])
+        return lz.BoostMatrix(_mom_expr(arg, table))
     if cls == "Bneg":
-        return lz.BoostMatrix(lz.NegativeMomentum(table[arg]))
+        return lz.BoostMatrix(lz.NegativeMomentum(_mom_expr(arg, table)))
     if cls == "Bnn":
         return lz.BoostMatrix(lz.NegativeMomentum(lz.NegativeMomentum(table[arg])))
     if cls == "Bnnn":
@@ -522,7 +569,7 @@ def build_expr(item, table, symbols):
     vec = None
     if item.get("vec"):
         kind, name = item["vec"]
-        vec = table[name] if kind == "p" else lz.NegativeMomentum(table[name])
+        vec = _mom_expr(name, table) if kind == "p" else lz.NegativeMomentum(_mom_expr(name, table))
     if item["op"] == "single":
         return factors[0] if factors else vec
     if item["op"] == "MM":
@@ -595,7 +642,7 @@ class ExplicitEvaluator:
             self.funcs.append(_lambdify(args, flat, cse))
         self.eta = None
         if item.get("vec") and item["vec"][0] == "neg":
-            matrix = lz.MinkowskiMetric(table[item["vec"][1]]).as_explicit()
+            matrix = lz.MinkowskiMetric(table[item["vec"][1].split("+")[0]]).as_explicit()
             flat = [matrix[i, j] for i in range(4) for j in range(4)]
             self.eta = _lambdify(args, flat, cse)
 
@@ -621,7 +668,7 @@ class ExplicitEvaluator:
             prod = m if prod is None else np.einsum("nij,njk->nik", prod, m)
         if not self.item.get("vec"):
             return prod
-        vec = data[self.item["vec"][1]]["p"][idx]
+        vec = sum(data[name]["p"][idx] for name in self.item["vec"][1].split("+"))
         if self.eta is not None:
             vec = np.einsum("nij,nj->ni", self._matrix(_call(self.eta, vals), n), vec)
         return vec if prod is None else np.einsum("nij,nj->ni", prod, vec)
@@ -635,9 +682,9 @@ def ref_factor(factor, data):
 
     cls, arg = factor
     if cls in {"B", "Bneg", "Bnn", "Bnnn"}:
-        d = data[arg]
-        n = d["n"] if cls in {"B", "Bnn"} else -d["n"]
-        return kin.boost(d["bg"], n), kin.gamma_of(d["bg"])
+        _m, bg, n = _mom_data(arg, data)
+        n = n if cls in {"B", "Bnn"} else -n
+        return kin.boost(bg, n), kin.gamma_of(bg)
     if cls == "BzP":
         d = data[arg]
         beta = d["bg"] * d["n"][:, 2] / kin.gamma_of(d["bg"])
@@ -678,8 +725,8 @@ def reference(item, data):
     if not item.get("vec"):
         return prod, big_g, big_c, np.ones(n_pts)
     kind, name = item["vec"]
-    d = data[name]
-    vec = kin.momentum(d["m"], d["bg"], d["n"] if kind == "p" else -d["n"])
+    vm, vbg, vn = _mom_data(name, data)
+    vec = kin.momentum(vm, vbg, vn if kind == "p" else -vn)
     mag = np.abs(vec).max(axis=1)
     if prod is not None:
         vec = kin.apply(prod, vec)
@@ -924,11 +971,11 @@ def eval_case(case):  # noqa: C901, PLR0912, PLR0914, PLR0915
                       show({"L": got}))
             # (d) named laws
             if item.get("expect") == "rest":
-                d = data[item["vec"][1]]
+                rest_m = _mom_data(item["vec"][1], data)[0]
                 want = np.zeros((n_pts, 4))
-                want[:, 0] = d["m"]
-                check("L(p).p=(m,0,0,0)", rkey, ent(got - want), d["m"], big_c, data,
-                      show({"got": got, "m": d["m"]}))
+                want[:, 0] = rest_m
+                check("L(p).p=(m,0,0,0)", rkey, ent(got - want), rest_m, big_c, data,
+                      show({"got": got, "m": rest_m}))
             if item.get("expect") == "identity":
                 check("product=identity", rkey, ent(got - np.eye(4)[None]), big_g,
                       np.ones(n_pts), data, show({"got": got}))
